@@ -232,6 +232,9 @@ def engine_property(prop, tier, theorems, need, kernel_theorems, fss, modes, wan
         t0 = _t.time(); emitted_stage(res, tier, prop, emit_tags); log('stage emitted %.1fs' % (_t.time() - t0))
     if prop == 'C03':
         c03_empty_match_stage(res, tier)
+        boundary_grid_stage(res, tier)
+    if prop == 'C02':
+        error_value_stage(res, tier, prop)
     if prop == 'C01':
         t0 = _t.time()
         repo_caps, rand_caps = ce.corpora(tier, res)
@@ -553,6 +556,49 @@ def check_C02(tier):
                            ASSUME_ENGINE + ['error *values* (Default / error callback) are covered by C13, not here'])
 
 
+def boundary_grid_stage(res, tier):
+    """K6b: Source::is_boundary and Source::find_boundary of str and [u8] on a grid of sources (1- to 4-byte characters,
+    empty, ASCII) x every index 0..len+3 and indices near 2^63 / 2^64, against Runtime.Source.is_boundary and
+    Engine.Run.fb_str (vm_compute).  The lexing loop's progress and span rules (C03, C04, C15) rest on these two."""
+    import coqeval
+    texts = ['', 'a', 'ab c', '\u00e9', 'a\u00e9b', '\u65e5\u672c', 'x\U0001F600y', '\u00e9\u65e5\U0001F600', 'abcdefgh\u00e9', '\U0001F600']
+    cases = []
+    for kind in ('s', 'b'):
+        for t in texts:
+            data = t.encode('utf8')
+            idxs = list(range(0, len(data) + 4)) + [U64 - 1, U64 - 2, 1 << 63, (1 << 63) + 1, 1 << 32]
+            for i in idxs:
+                cases.append((kind, data, i))
+        if kind == 'b':
+            for data in (b'\xff\x80\x80', b'\x80', b'a\xbf'):
+                for i in range(0, len(data) + 3):
+                    cases.append((kind, data, i))
+    exes = {}
+    for fs, prof in [('tc', 'debug'), ('tc', 'release'), ('tcsafe', 'debug')]:
+        sets = ce.compiled_sets('quick', [fs], prof)
+        exes[(fs, prof)] = sets[0][1][fs][0]
+    lines = ['Y y%d %s %s %d' % (i, k, d.hex() or '-', idx) for i, (k, d, idx) in enumerate(cases)]
+    exprs = []
+    for k, d, idx in cases:
+        w = coqeval.nlist(d)
+        fb = ('fb_str %s %d' % (w, idx)) if k == 's' else str(idx)
+        exprs.append('[(if Source.is_boundary %s %s %d then 1 else 0); %s]' % ('true' if k == 's' else 'false', w, idx, fb if idx <= len(d) else '0'))
+    model = coqeval.coq_eval(exprs, 'From LogosV Require Import Runtime.Source Engine.Run.', 'bgrid')
+    nbad = 0
+    for b, exe in exes.items():
+        out = run_lines(exe, lines, 'Y')
+        for i, ((k, d, idx), m) in enumerate(zip(cases, model)):
+            got = out.get('y%d' % i, '?')
+            exp = '%d %s' % (m[0], m[1] if idx <= len(d) else '-')
+            res.count('boundary_grid_cases')
+            if got != exp:
+                nbad += 1
+                if nbad <= 4:
+                    res.violation(None, 'Source::is_boundary / find_boundary (%s/%s) on the %s source %r at index %d: got `%s`, specification `%s` (is_boundary, find_boundary)' % (b[0], b[1], 'str' if k == 's' else '[u8]', d, idx, got, exp),
+                                  dict(featureset=b[0], profile=b[1], kind=k, source_hex=d.hex(), index=idx, observed=got, expected=exp))
+    res.oblige(nbad == 0)
+
+
 def c03_empty_match_stage(res, tier):
     """C03, last clause: no accepted definition has a pattern (token, regex or skip, either source mode) that matches the
     empty string — such a lexer makes no progress.  Every nullable pattern of the generated family c19_nullable must be
@@ -592,7 +638,7 @@ def check_C03(tier):
 
 def check_C07(tier):
     res = Result('C07', tier)
-    framework(res, ['C07_next_prefix_safe', 'C07_next_prefix_none', 'C07_determined_scan', 'C07_prompt_one_byte', 'C07_prompt_strict', 'C07_no_test_acts'])
+    framework(res, ['C07_next_prefix_safe', 'C07_next_prefix_none', 'C07_determined_scan', 'C07_prompt_one_byte', 'C07_prompt_strict', 'C07_no_test_acts', 'C07_stream_prefix', 'C07_partial_runs_end', 'C07_chunked_is_oneshot'])
     fss = ['tc', 'sm']
     sets = ce.compiled_sets(tier, fss)
     failing, drv = cert_stage(res, tier, ['dfa_ok', 'sim_ok', 'exact_ok', 'prompt_ok', 'prompt_strict_ok'], [], 'C07', curated_caps(sets, 'tc'))
@@ -770,7 +816,7 @@ def invalid_bump_stage(res, tier, prop, want):
             if want == 'midchar':
                 ns = [n for n in range(0, L + 1)]
             else:
-                ns = [L + d for d in (1, 2, 3, 7, 64)] + [n for n in range(0, L + 2)]
+                ns = [L + d for d in (1, 2, 3, 7, 64)] + [n for n in range(0, L + 2)] + [U64 - 1 - j for j in range(0, L + 2)] + [1 << 63]
             for n in ns:
                 cases.append((en, data, k, n))
     lines = ['B c%d %s %s %d %d' % (i, en, data.hex(), k, n) for i, (en, data, k, n) in enumerate(cases)]
@@ -1085,6 +1131,47 @@ def c13_compare(c, codes, has_errcb, r, mi, mf, data, default_err='Default'):
     return None
 
 
+def error_value_stage(res, tier, prop):
+    """The error value of every Err item of the compiled callback definitions: the error type's Default unless the
+    error callback or the pattern's callback supplied one (C02, last sentence); same runs as C13, judged on the value only."""
+    fss = ['tc']
+    sets = ce.compiled_sets(tier, fss)
+    drv = build.extraction_build()
+    rng = random.Random(seed() + 213)
+    label, h, enums = sets[0]
+    exe0, caps0 = h['tc']
+    targets = [en for en in sorted(caps0) if any(v >= 10 for v in engine.behaviour_codes(caps0[en]) if v is not None)]
+    nviol = 0
+    for en in targets:
+        c = caps0[en]
+        codes = engine.behaviour_codes(c)
+        src_nospace = (enums[en][1].source or '').replace(' ', '')
+        has_errcb = 'error(' in src_nospace
+        ps = ce.make_probes(c, rng, 'quick')[:120]
+        for _ in range(60 if tier == 'quick' else 600):
+            ps.append(' '.join(rng.choice(['ab', 'abc', 'z', 'xyz', '12', '7', '305', 'q', '!', 'kk', 'dcba']) for _ in range(rng.randint(1, 6))).encode())
+        if c.utf8:
+            ps = [p for p in ps if probes.is_utf8(p)]
+        lines = engine.problem_header(c, with_dfa=False)
+        allp = []
+        for i, p in enumerate(ps):
+            pid = '%s.%d' % (en, i)
+            allp.append((pid, en, 0, p))
+            lines.append('P %s 0 %d %s' % (pid, len(p), ' '.join(map(str, p))))
+        model = engine.parse_model_output(engine.run_modeldrv(drv, [lines]))
+        real = engine.run_real(exe0, allp)
+        for pid, _, _, p in allp:
+            (mi, mf), _ = model[pid]
+            nerr = sum(1 for it in mi if not it[0])
+            res.count('error_values_compared', nerr)
+            d = c13_compare(c, codes, has_errcb, real[pid], mi, mf, p, 'Default' if 'error' in src_nospace else '()')
+            if d and 'error value' in d:
+                nviol += 1
+                if nviol <= 4:
+                    res.violation(p, '%s on %r: %s' % (en, p, d), dict(definition=enums[en][1].source, enum=en, featureset='tc', input_hex=p.hex(), input=repr(p), observed=real[pid]['raw'][:600]))
+    res.oblige(nviol == 0)
+
+
 def check_C13(tier):
     res = Result('C13', tier)
     framework(res, ['C13_construct_matches_table', 'C13_decision_determines_item', 'C13_skip_transparent', 'C13_bump_extends_and_excludes'])
@@ -1094,6 +1181,25 @@ def check_C13(tier):
     # generate_callback: the dispatch emitted for every leaf of every corpus definition calls that leaf's callback,
     # through the construct that belongs to its variant kind (translator lib/genparse.py)
     emitted_stage(res, tier, 'C13', set(), leaf_bodies=True)
+    # every leaf carries a callback exactly when its attribute declares one (positional, or `callback = ..` anywhere after
+    # the literal): attributes scanned independently of logos (tools/capture/src/attrs.rs) over all graph-level corpora
+    repo_caps, rand_caps = ce.corpora(tier, res)
+    extra = build.capture_files(front_files() + [os.path.join(VERIF, 'corpus', 'engine', f) for f in sorted(os.listdir(os.path.join(VERIF, 'corpus', 'engine'))) if f.endswith('.rs')], 'c13-attrs')
+    ncb = 0
+    for c in list(repo_caps) + list(rand_caps) + list(extra):
+        if c.panic is not None or not c.accepted or not c.leaves or len(c.attrs) != len(c.leaves):
+            continue
+        for l in c.leaves:
+            a = c.attrs[l['idx']]
+            if 'cb' not in a or 'cb' not in l:
+                continue
+            res.count('leaves_checked_for_their_callback')
+            if int(a['cb']) != int(l['cb']):
+                ncb += 1
+                if ncb <= 4:
+                    res.violation(None, '%s leaf %d (%s): the attribute %s a callback, the leaf the derive built %s' % (c.id, l['idx'], l['src'], 'declares' if int(a['cb']) else 'declares no', 'has one' if int(l['cb']) else 'has none'),
+                                  dict(definition=c.source, definition_id=c.id, leaf=l['idx']))
+    res.oblige(ncb == 0)
     rng = random.Random(seed() + 13)
     label, h, enums = sets[0]
     exe0, caps0 = h['tc']
@@ -1304,7 +1410,7 @@ def check_C04(tier):
 
 def check_C12(tier):
     res = Result('C12', tier)
-    framework(res, ['C12_next_fb_independent', 'C12_inside_char_error', 'C04_match_ends_on_boundary'])
+    framework(res, ['C12_next_fb_independent', 'C12_inside_char_error', 'C12_streams_agree', 'C04_match_ends_on_boundary'])
     rej_file = os.path.join(VERIF, 'corpus', 'front', 'utf8_reject.rs')
     failing, drv, allcaps, ext = utf8_cert_stage(res, tier, 'C12', [rej_file])
     for c, names in failing[:6]:
@@ -1337,7 +1443,7 @@ def check_C12(tier):
         meta = []
         for a, b in pairs:
             ca, cb = caps[a], caps[b]
-            same = (ca.graph == cb.graph and ca.dfa == cb.dfa)
+            same = (ca.graph == cb.graph and ca.dfa == cb.dfa and [l['prio'] for l in ca.leaves] == [l['prio'] for l in cb.leaves])
             res.oblige(same); res.count('mode_twin_graphs_compared')
             if not same:
                 res.violation(None, 'graph of %s differs between str mode and utf8 = false' % a, dict(definition=ce.enum_source(enums, a), no_longer_checks='K1 graph equality across modes for %s' % a), found_input=False)
@@ -1367,7 +1473,7 @@ def check_C12(tier):
     res.oblige(nbad == 0)
     res.cov['rule'] = ('every dual definition compiled in str mode and with utf8 = false: captured graphs equal; both run on every valid-UTF-8 probe: same Ok tokens and spans, same set of bytes covered by errors; '
                        'UTF-8 certificates incl. strictness on every accepted str-mode definition; acceptance pairs for patterns matching invalid UTF-8')
-    res.assumptions += ASSUME_ENGINE + ['stream-level agreement follows from the two per-call theorems by iteration (informal), and is what K2 compares']
+    res.assumptions += ASSUME_ENGINE + ['stream-level agreement is C12_streams_agree (model); the compiled twins are compared on the probes (K2)']
     return res.finish('./vcheck C12 --tier ' + tier)
 
 
@@ -1492,10 +1598,69 @@ def check_C08(tier):
     return res.finish('./vcheck C08 --tier ' + tier)
 
 
+HUGE_PATTERNS = [
+    '(a{4294967295}){4294967295}', '((((a{1000000}){1000000}){1000000}){1000000}){1000000}',
+    '(a{4294967295}){4294967295}(b{4294967295}){4294967295}', '(?:[a-z]{65536}){65536}{65536}{65536}',
+    '((ab){4294967295}|c{5}){4294967295}{2}', '(a{4294967295}){4294967295}|b', 'x((a{4294967295}){4294967295})?',
+    '(\\b{4294967295}){4294967295}', '(a{0}){4294967295}{4294967295}', '(a{4294967295}){0}',
+    'a{1000}', '(?:ab){1000000}c{3}', '(a{3}){4}', '(a|bc){2,}d', '[a-z]{7}\\d{2}', 'a{4294967295}', '(a{65536}){65536}', '(a{65536}){65535}',
+    '(?:é{3}){4}', '(?i:k){3}', 'a+$', '(a.*)+', '(.)*x', 'x.*?y', '(?s:.)+z',
+]
+
+
+def pattern_stage(res, tier, prop):
+    """K8 on pattern text: the real Pattern::compile + priority() + check_for_greedy_all() (hook pattern_info, no automaton is
+    built) against Regex.Re.complexity_sat / Regex.Greedy.greedy of the HIR it produced, by vm_compute.  A panic of the real
+    function is a violation (C19); counted repetitions whose product leaves usize are in the list."""
+    import coqeval, frontgen as fg
+    pats = list(HUGE_PATTERNS)
+    rng = random.Random(seed() * 31 + 9)
+    atoms = ['a', 'b', '[a-c]', '\\d', 'é', '(?:ab)', '\\b', '.', '(x|yz)']
+    for _ in range(20 if tier == 'quick' else 200):
+        p = ''
+        for _ in range(rng.randint(1, 3)):
+            a = rng.choice(atoms)
+            for _ in range(rng.randint(0, 3)):
+                a = '(%s){%d}' % (a, rng.choice([0, 1, 2, 7, 255, 65536, 1000000, 4294967295]))
+            p += a
+        pats.append(p)
+    lines = ['p%d 1 0 %s' % (i, p.encode('utf8').hex()) for i, p in enumerate(pats)]
+    real = fg.front_tool('pattern', lines)
+    exprs = []; idx = []
+    nbad = 0
+    for i, p in enumerate(pats):
+        r = real.get('p%d' % i, '')
+        res.count('patterns_through_pattern_info')
+        if r.startswith('PANIC') or not r:
+            nbad += 1
+            if nbad <= 4:
+                res.violation(p.encode('utf8'), 'Pattern::compile / priority() %s on the pattern %r (library call, build with overflow checks)' % ('panics' if r else 'gave no answer', p),
+                              dict(pattern=p, observed=r or 'no output', expected='a priority or an error message'))
+            continue
+        if not r.startswith('ok '):
+            res.count('patterns_rejected_by_the_parser')
+            continue
+        _, prio, greedy, hir = r.split(' ', 3)
+        re_ = capmod.coq_re(capmod.parse_sexpr(hir))
+        exprs.append('[complexity_sat %s; (if lits_small %s then 1 else 0); (if greedy %s then 1 else 0)]' % (re_, re_, re_))
+        idx.append((p, int(prio), int(greedy)))
+    vals = coqeval.coq_eval(exprs, 'From LogosV Require Import Regex.Re Regex.Greedy.', 'patinfo', shard=max(50, len(exprs) // 8 + 1)) if exprs else []
+    for (p, prio, greedy), v in zip(idx, vals):
+        ok = (v[0] == prio and v[1] == 1 and v[2] == greedy)
+        if not ok:
+            nbad += 1
+            if nbad <= 4:
+                res.violation(p.encode('utf8'), 'pattern %r: Pattern::priority() = %d, greedy flag %d; model complexity_sat = %d, greedy = %d' % (p, prio, greedy, v[0], v[2]),
+                              dict(pattern=p, observed='priority %d greedy %d' % (prio, greedy), expected='priority %d greedy %d' % (v[0], v[2])))
+    res.oblige(nbad == 0)
+
+
 def check_C09(tier):
     import coqeval
     res = Result('C09', tier)
-    framework(res, ['C09_complexity_le_len', 'C09_literal_never_beaten', 'C09_rule_concat', 'C09_rule_alternation', 'C09_rule_repetition', 'C09_rule_assertion'])
+    framework(res, ['C09_complexity_le_len', 'C09_literal_never_beaten', 'C09_rule_concat', 'C09_rule_alternation', 'C09_rule_repetition', 'C09_rule_assertion',
+                    'C09_code_value_is_rule_saturated', 'C09_code_value_exact'])
+    pattern_stage(res, tier, 'C09')
     repo_caps, rand_caps = ce.corpora(tier, res)
     extra = build.capture_files(front_files(), 'front-extra')
     caps = [c for c in list(repo_caps) + list(rand_caps) + list(extra) if c.panic is None and c.leaves]
@@ -1503,7 +1668,7 @@ def check_C09(tier):
     for c in caps:
         for l in c.leaves:
             if l['hir'] and l['hir'] != '-':
-                exprs.append('[complexity %s]' % capmod.coq_re(capmod.parse_sexpr(l['hir'])))
+                exprs.append('[complexity_sat %s]' % capmod.coq_re(capmod.parse_sexpr(l['hir'])))
                 idx.append((c, l))
     vals = coqeval.coq_eval(exprs, 'From LogosV Require Import Regex.Re.', 'cplx', shard=max(50, len(exprs) // 16 + 1))
     nbad = 0
@@ -1511,7 +1676,7 @@ def check_C09(tier):
         res.count('leaves_checked')
         bad = None
         if v[0] != l['default_prio']:
-            bad = 'Pattern::priority() = %d, documented rule (Coq complexity of the captured HIR) = %d' % (l['default_prio'], v[0])
+            bad = 'Pattern::priority() = %d, documented rule (Coq complexity_sat of the captured HIR: the rule, cut off at usize::MAX) = %d' % (l['default_prio'], v[0])
         elif len(c.attrs) == len(c.leaves):
             a = c.attrs[l['idx']]
             if a.get('kind') == ('token' if l['lit'] else a.get('kind')) and 'lit' in a:
@@ -1686,6 +1851,20 @@ def check_C10(tier):
             pairs.append(dict(tag='TokSI%d-companion' % i, cap=b, leaf=1, ref=equiv.RefDfa(a.dfa['states'], a.dfa['start']), refleaf=1, source=b.source,
                               describe='ignore(case) on one token must not change the other pattern'))
     bisim_stage(res, drv, pairs, 'C10')
+    # nothing else changes: ignore(case) leaves the priorities of both leaves as they are (2 x byte length for the token)
+    nprio = 0
+    for i in range(n):
+        for sfx, isb in (('S', False), ('B', True)):
+            a, b = caps.get('Tok%s%d' % (sfx, i)), caps.get('Tok%sI%d' % (sfx, i))
+            if not (a and b and len(a.leaves) == 2 and len(b.leaves) == 2):
+                continue
+            res.count('ignore_case_priority_pairs')
+            pa, pb = [l['prio'] for l in a.leaves], [l['prio'] for l in b.leaves]
+            if pa != pb:
+                nprio += 1
+                if nprio <= 4:
+                    res.violation(None, 'ignore(case) changes a priority: %s has leaf priorities %r, %s has %r' % (a.name, pa, b.name, pb), dict(definition=b.source, canonical_definition=a.source))
+    res.oblige(nprio == 0)
     # K8: Literal::escape(true) of the real code vs the Coq model, on the generated literals
     lines = []; exprs = []; lits = []
     for name, source, kind, info in defs:
@@ -1814,6 +1993,11 @@ def check_C11(tier):
         cases.append((subs, p, True))
     # the referencing attribute's own arguments (ignore(case), priority, callback) apply to the inlined pattern as a whole:
     # lone references, references in context, chains
+    # flags in force at the reference (verbose mode) apply to the included text exactly as they would to the inlined group
+    for subs, pats in [([('ws', 'a b', True)], ['(?x)(?&ws) c', '(?x: (?&ws) ) d', '(?&ws)c']), ([('h', 'a#b', True)], ['(?x)(?&h)c']),
+                       ([('sp', 'x y', True), ('spp', '(?&sp) z', True)], ['(?x)(?&spp)!', '(?&spp)!'])]:
+        for p in pats:
+            cases.append((subs, p, True))
     icase_cases = set()
     for subs, pats in [([('kw', 'select|from', True)], ['(?&kw)', '(?&kw)+', 'x(?&kw)', '(?&kw)|to']),
                        ([('h', '[a-f]', True), ('hh', '(?&h)(?&h)', True)], ['(?&hh)', '(?&h)', '0x(?&hh)+', '(?&h)(?&hh)']),
@@ -2029,7 +2213,8 @@ def check_C18(tier):
               'skip("[b-d]+x")', 'skip("\\t", priority = 3)', 'skip("#+", priority = 9, callback = hashes)', 'extras = u8', 'subpattern d = "[0-9]"']
     sforced = [['skip(r" +", count_blanks)', 'skip r"[ \\t]+"'], ['skip("#", priority = 9)', 'skip("#+", priority = 9, callback = hashes)', 'extras = u8'],
                ['skip " "', 'skip("[a-c]+", note_abc)', 'skip("[b-d]+", priority = 3)'], ['skip " "', 'skip("\\t", priority = 3)', 'skip r"[ \\t]+"'],
-               ['skip("[a-c]+", note_abc)', 'skip("[b-d]+x")', 'skip " "']]
+               ['skip("[a-c]+", note_abc)', 'skip("[b-d]+x")', 'skip " "'],
+               ['utf8 = false', 'skip(b" +", saw_space)', 'skip(b"\\t+", saw_tab)'], ['skip(b"#+", hashes)', 'utf8 = false', 'skip(b" +", saw_space)', 'extras = u8']]
     sgroups = []
     for it_ in range(10 if tier == 'quick' else 80):
         sub = sforced[it_] if it_ < len(sforced) else rng.sample(sitems, rng.randint(2, 4))
@@ -2038,7 +2223,11 @@ def check_C18(tier):
         members = []
         for perm in list(itertools.permutations(sub))[:12]:
             body = ', '.join(perm)
-            src = '#[derive(Logos)] #[logos(%s)] enum P%d { #[regex("[e-z]+")] A, #[token("0")] Z }' % (body, idx)
+            if 'utf8 = false' in perm:
+                # binary lexers: a state with a single edge in front of an any-byte position
+                src = '#[derive(Logos)] #[logos(%s)] enum P%d { #[regex(b"\\x01(?s-u:.)\\x02")] M, #[regex(b"[e-z]+")] A, #[token(b"0")] Z }' % (body, idx)
+            else:
+                src = '#[derive(Logos)] #[logos(%s)] enum P%d { #[regex("[e-z]+")] A, #[token("0")] Z }' % (body, idx)
             members.append(('P%d' % idx, src, body)); idx += 1
         sgroups.append(('logos-skips', members))
     allgroups = groups + lgroups + sgroups
@@ -2194,13 +2383,13 @@ def build_cli():
 
 def c17_sources(rng, n):
     derive_pool = ['Debug', 'Clone', 'PartialEq', 'serde::Serialize', '::core::fmt::Debug', 'Eq', 'core::hash::Hash', 'Copy']
-    logos_forms = ['Logos', 'logos::Logos', '::logos::Logos']
+    logos_forms = ['Logos', 'logos::Logos', '::logos::Logos', 'lg::Logos', 'my_lexer::Logos', 'crate::deps::logos::Logos', '::lexgen::Logos']
     out = []
     for i in range(n):
         k = rng.randint(0, 4)
         ds = rng.sample(derive_pool, k)
         pos = rng.randint(0, len(ds))
-        ds.insert(pos, rng.choice(logos_forms) if rng.random() < 0.4 else 'Logos')
+        ds.insert(pos, rng.choice(logos_forms) if rng.random() < 0.5 else 'Logos')
         trailing = ',' if rng.random() < 0.15 else ''
         attrs = ['#[derive(%s%s)]' % (', '.join(ds), trailing)]
         if rng.random() < 0.3: attrs.insert(0, '/// Token doc comment')
@@ -2379,7 +2568,9 @@ def check_C19(tier):
     import coqeval, json as _json
     res = Result('C19', tier)
     framework(res, ['C19_never_panics', 'C19_bad_variant_rejected', 'C19_greedy_complete', 'C19_greedy_sound',
-                    'C19_old_panics_on_empty_tuple', 'C19_old_panics_on_duplicate_callback', 'C19_greedy_old_refuted', 'C19_greedy_nocap_refuted'])
+                    'C19_old_panics_on_empty_tuple', 'C19_old_panics_on_duplicate_callback', 'C19_greedy_old_refuted', 'C19_greedy_nocap_refuted',
+                    'C19_complexity_fits', 'C19_old_complexity_overflows'])
+    pattern_stage(res, tier, 'C19')
     rng = random.Random(seed() * 47 + 19)
     mal = os.path.join(VERIF, 'corpus', 'front', 'malformed.rs')
     n = 250 if tier == 'quick' else 3000
@@ -2589,6 +2780,17 @@ def check_C16(tier):
         if os.path.exists(op): os.remove(op)
         w = sh([cli, ip, '--output', op], check=False); c = sh([cli, ip, '--output', op, '--check'], check=False)
         ok = (a == b) and w.returncode == 0 and c.returncode == 0
+        # the bytes written do not depend on what the output file held before: a longer and a shorter stale file
+        fresh = open(op).read() if os.path.exists(op) else None
+        for stale in (lambda t: (t or '') + '// stale line\n' * 400, lambda t: (t or '')[:len(t or '') // 2]):
+            open(op, 'w').write(stale(fresh))
+            w2 = sh([cli, ip, '--output', op], check=False); c2 = sh([cli, ip, '--output', op, '--check'], check=False)
+            now = open(op).read()
+            res.count('cli_overwrite_cases')
+            if not (w2.returncode == 0 and c2.returncode == 0 and now == fresh):
+                ok = False
+                res.violation(None, 'logos-cli --output over an existing file: the result depends on the old contents (%d bytes vs %d bytes into a fresh path; --check exit %d)' % (len(now), len(fresh or ''), c2.returncode),
+                              dict(input=src, old_file_bytes=len(stale(fresh)), written_bytes=len(now), fresh_bytes=len(fresh or '')))
         res.oblige(ok); res.count('cli_determinism_cases')
         if not ok:
             res.violation(None, 'logos-cli: two runs differ or --check rejects its own output', dict(input=src, same_stdout=(a == b), write_exit=w.returncode, check_exit=c.returncode))
@@ -2613,7 +2815,7 @@ def check_C14(tier):
     res = Result('C14', tier)
     framework(res, ['C14_step_only_current', 'C14_clone_is_copy', 'C14_morph_preserves', 'C14_morph_back', 'C14_spanned_eq_next', 'C14_bump_in_range'])
     drv = build.extraction_build()
-    fss = ['tc', 'sm']
+    fss = ['tc', 'sm', 'tcsafe']      # slice()/remainder() have separate forbid_unsafe branches
     sets = ce.compiled_sets(tier, fss)
     rng = random.Random(seed() * 53 + 14)
     label, h, enums = sets[0]
